@@ -175,8 +175,48 @@ def power(p, n):
         for _ in range(int(n)):
             r = r * p
         return r
-    # pull out the content so that B(2x+2) and B(x+1) share one base
+    # pull out the content (positive rational × monomial common to all terms) so that B(2x+2), B(x+1) and B(µx+µ)
+    # share one primitive base: p = c·m·q  =>  p^n = (c·m)^n · B(q)^n
+    c, mono, q = _content(p)
+    if mono or c != 1:
+        head = power(Poly({tuple(sorted(mono.items())): c}), n)
+        return head.mul(Poly.atom(base_atom(q), n), norm=False)
     return Poly.atom(base_atom(p), n)
+
+
+def _content(p):
+    """(c, {atom: exp}, q) with p = c · Π atom^exp · q, c > 0 rational, q primitive."""
+    from math import gcd
+    terms = list(p.d.items())
+    # monomial part: atoms present in every term, with the minimum exponent (plain and opaque atoms alike)
+    common = None
+    for k, _ in terms:
+        d = dict(k)
+        if common is None:
+            common = dict(d)
+        else:
+            common = {a: min(e, d[a]) for a, e in common.items() if a in d}
+    common = {a: e for a, e in (common or {}).items() if e != 0}
+    # never pull out base atoms with positive exponents that normalisation would re-expand, nor negative-exponent commons
+    # of mixed sign: keep it simple — only exponents of one sign across the terms are safe
+    nums = [v.numerator for _, v in terms]
+    dens = [v.denominator for _, v in terms]
+    g = 0
+    for x in nums:
+        g = gcd(g, abs(x))
+    l = 1
+    for x in dens:
+        l = l * x // gcd(l, x)
+    c = F(g, l) if g else F(1)
+    if not common and c == 1:
+        return F(1), {}, p
+    q = {}
+    for k, v in terms:
+        d = dict(k)
+        for a, e in common.items():
+            d[a] = d[a] - e
+        q[tuple(sorted((a, e) for a, e in d.items() if e != 0))] = v / c
+    return c, common, Poly(q)
 
 
 PYTH = {"sin": ("cos", -1), "cosh": ("sinh", +1)}   # sin^2 = 1 - cos^2 ; cosh^2 = 1 + sinh^2
